@@ -9,7 +9,7 @@ T = {
  'C02': ('reference-decoder oracle on every successful parse; complete sweeps of the escape/scalar tables; key lookups and the full iterator protocol of the lookup iterators against a linear scan; values also under the lenient options',
          'all 65,536 \\uXXXX x 3 hex styles, all 1,048,576 surrogate pairs, all 1,112,064 raw scalars, all backslash+ASCII pairs (complete); small documents enumerated by walking the grammar; generated and large documents (20 k-entry objects, 140 k-item arrays); long strings, numbers and escape runs of every length; wide objects cycling over few keys; irregular nesting patterns; wide objects whose long keys share head and tail and differ in the middle; typed Parse impls; every code-map-returning entry point in turn'),
  'C03': ('panic capture, pull-counting / stack-address-recording character source, deep and long documents in 64 KiB threads inside child processes (exit status observed) in the release build and, thorough tier, in a dev-profile build with the library unoptimized; ASan on reduced workloads in the thorough tier',
-         'random bytes in three distributions, random character sequences, every prefix and single-byte edits of the corpus, generated and damaged documents under all 4 option values, lazy sources announcing 2^62 items, 14 nested and 12 flat shapes x sizes 10^3..10^6 (thorough 2*10^6; flat ones also at exactly 2^16-1, 2^16, 2^17), each also followed by an ill-formed byte / a failing source, volume()/count() on the results; a character source that itself parses JSON between characters; sampled inputs through sources declaring other (also zero) character lengths and through the typed Parse impls; long runs (2^12..200,000) of one ill-formed byte at three placements under a watchdog'),
+         'random bytes in three distributions, random character sequences, every prefix and single-byte edits of the corpus, generated and damaged documents under all 4 option values, lazy sources announcing 2^62 items, 14 nested and 12 flat shapes x sizes 10^3..10^6 (thorough 2*10^6; flat ones also at exactly 2^16-1, 2^16, 2^17), each also followed by an ill-formed byte / a failing source, volume()/count() on the results; a character source that itself parses JSON between characters; sampled inputs through sources declaring other (also zero) character lengths and through the typed Parse impls; long runs (2^12..200,000) of one ill-formed byte at three placements under a watchdog; every sequence of one to three \\u escapes over 19 boundary values of the surrogate and control ranges (complete, cut short, as value / key / unterminated)'),
  'C04': ('metamorphic monitor: print -> reference recognizer -> re-parse (parse_str and parse_slice) == value -> strip whitespace == reference compact form, over (value, option record) pairs; prints into failing sinks interleaved',
          'three presets, exhaustive pairwise cover of the 12 numeric option fields (values 0..3) around 4 base records, random records with every Limit variant and thresholds around the actual widths and beyond any width, strings / keys / numbers of every length up to 2200 / 700, nesting to depth 80 (2000 in a roomy thread), values wider than 65,535 characters, numbers of 4,095-70,000 digits, spacing and indentation up to 256 / beyond 65,535, multi-line documents of every size class up to ~40 KiB, fmt_with at base depths up to 131,072, values obtained through Deserialize from a foreign number token, every Unicode scalar value (64 per string) as string and key'),
  'C05': ('reference fragment/span/volume oracle compared entry by entry with every returned code map (also under lenient options, through typed impls, and in the units of sources declaring UTF-16 / UTF-32 / escaped lengths) and aligned with Value::traverse',
